@@ -159,10 +159,10 @@ impl<'a> Reader for Tr<'a> {
             let x = x.to_i64();
             let con = match (C::MIN, C::MAX) {
                 (None, None) => Some(json!({"c": "none", "lb": 0, "ub": 0, "ext": false})),
-                (Some(lb), Some(ub)) if lb.abs() < SMALL && ub.abs() < SMALL => Some(json!({"c": "rng", "lb": lb, "ub": ub, "ext": C::EXTENSIBLE})),
+                (Some(lb), Some(ub)) if lb.unsigned_abs() < SMALL as u64 && ub.unsigned_abs() < SMALL as u64 => Some(json!({"c": "rng", "lb": lb, "ub": ub, "ext": C::EXTENSIBLE})),
                 _ => None,
             };
-            con.filter(|_| x.abs() < SMALL).map(|con| (json!({"k": "int", "con": con}), json!(x)))
+            con.filter(|_| x.unsigned_abs() < SMALL as u64).map(|con| (json!({"k": "int", "con": con}), json!(x)))
         });
         r
     }
